@@ -745,6 +745,35 @@ Section Strong.
       rewrite E. apply list_state_any; auto.
       intros n. rewrite in_app_iff. tauto.
   Qed.
+  (* ---- the value an operation returns does not depend on its position *)
+  Lemma step_same s s' o : Inv s -> Inv s' -> be_op o ->
+    (forall k, isinput k = true -> st_cache s' k = st_cache s k) ->
+    snd (step W sem s' o) = snd (step W sem s o).
+  Proof.
+    intros I I' OK E. destruct o as [n|a v|n]; cbn [C05.be_op] in OK; [| contradiction |];
+      cbn [step snd]; auto. now apply evaluate_same.
+  Qed.
+
+  Theorem history_values : forall h s, Inv s -> Forall be_op h ->
+    snd (run W sem s h) = map (fun o => snd (step W sem s o)) h.
+  Proof.
+    induction h as [|o h IH]; intros s I F; [reflexivity|].
+    inversion F as [|? ? Fo Fh]; subst. rewrite run_cons. cbn [snd map].
+    destruct (be_step W sem WF NB SO s o I Fo) as [I1 K1].
+    f_equal. rewrite (IH _ I1 Fh). apply map_ext_in. intros x Hx.
+    rewrite Forall_forall in Fh. apply step_same; auto.
+  Qed.
+
+  Theorem history_values_perm s h1 h2 : Inv s -> Forall be_op h1 -> Permutation h1 h2 ->
+    Permutation (combine h1 (snd (run W sem s h1))) (combine h2 (snd (run W sem s h2))).
+  Proof.
+    intros I F1 P.
+    assert (F2: Forall be_op h2).
+    { rewrite Forall_forall in *. intros x Hx. apply F1.
+      eapply Permutation_in; [apply Permutation_sym; exact P|exact Hx]. }
+    rewrite (history_values h1 s I F1), (history_values h2 s I F2), !combine_map.
+    now apply Permutation_map.
+  Qed.
 End Strong.
 
 (* ================================================================ weak *)
@@ -954,6 +983,27 @@ Section WeakList.
     rewrite (run_g h1 s F1), (run_g h2 s F2).
     apply (history_order W g WF NB2 SO2 s h1 h2 I F1 F2 EM).
   Qed.
+  (* C05_history_values *)
+  Theorem history_values_weak s h : Inv W sem s -> Forall (be_op W) h ->
+    snd (run W sem s h) = map (fun o => snd (step W sem s o)) h.
+  Proof.
+    intros I F. apply (Inv_guard W sem WF NBW) in I.
+    rewrite (run_g h s F), (history_values W g WF NB2 SO2 h s I F).
+    apply map_ext_in. intros o Ho. rewrite Forall_forall in F.
+    rewrite (step_guard W sem WF NBW s o); auto.
+    specialize (F o Ho). destruct o; cbn in *; auto.
+  Qed.
+
+  Theorem history_values_perm_weak s h1 h2 : Inv W sem s -> Forall (be_op W) h1 -> Permutation h1 h2 ->
+    Permutation (combine h1 (snd (run W sem s h1))) (combine h2 (snd (run W sem s h2))).
+  Proof.
+    intros I F1 P.
+    assert (F2: Forall (be_op W) h2).
+    { rewrite Forall_forall in *. intros x Hx. apply F1.
+      eapply Permutation_in; [apply Permutation_sym; exact P|exact Hx]. }
+    rewrite (history_values_weak s h1 I F1), (history_values_weak s h2 I F2), !combine_map.
+    now apply Permutation_map.
+  Qed.
 End WeakList.
 
 (* ---- the hypotheses are satisfiable (tests, not theorems): the two-column
@@ -1059,4 +1109,15 @@ Proof.
   - repeat constructor; cbn; lia.
   - repeat constructor; cbn; lia.
   - intros o. cbn [In]. tauto.
+Qed.
+
+Example xl_history_values :
+  snd (run exaW exa_sem (init exaW) [Build 5; Evaluate 4; Evaluate 2; Evaluate 5])
+  = map (fun o => snd (step exaW exa_sem (init exaW) o)) [Build 5; Evaluate 4; Evaluate 2; Evaluate 5]
+  /\ snd (run exaW exa_sem (init exaW) [Build 5; Evaluate 4; Evaluate 2; Evaluate 5])
+     = [VNone; VInt 11; VTuple [VInt 3; VInt 4]; VInt 23]%Z.
+Proof.
+  split; [|vm_compute; reflexivity].
+  apply (history_values_weak exaW exa_sem (exa_wf _) (exa_weak _) xo_stored (init exaW) _ xo_inv).
+  repeat constructor; cbn; lia.
 Qed.
